@@ -207,6 +207,96 @@ def make_scenario(plan_name):
     return scenario
 
 
+# -- every supported metric of every category: the sample carries that metric's value -----------
+
+
+def all_metrics_case():
+    """One component per category, every metric the SDK supports for it, two messages whose fields
+    all carry different values; the expected value of each metric is written down here by field name,
+    independently of the SDK's extraction tables."""
+    import math
+
+    from frequenz.sdk.microgrid._data_sourcing import microgrid_api_source as src
+
+    T = fakes.T0
+
+    def three(base):
+        return (base + 1, base + 2, base + 3)
+
+    def msgs(k):
+        ts = T + timedelta(seconds=k)
+        o = 1000.0 * k
+        meter = fakes.meter(2, ts=ts, power=o + 10, per_phase=three(o + 20), current=three(o + 30), voltage=three(o + 40), reactive=o + 50, frequency=o + 60)
+        meter = type(meter)(**{**meter.__dict__, "reactive_power_per_phase": three(o + 70)})
+        inv = fakes.inv(8, ts=ts, power=o + 110, il=-(o + 120), el=-(o + 130), eu=o + 140, iu=o + 150)
+        inv = type(inv)(**{**inv.__dict__, "active_power_per_phase": three(o + 160), "current_per_phase": three(o + 170),
+                           "voltage_per_phase": three(o + 180), "reactive_power": o + 190, "reactive_power_per_phase": three(o + 200),
+                           "frequency": o + 210})
+        bat = fakes.bat(9, ts=ts, soc=o + 310, cap=o + 320, il=-(o + 330), el=-(o + 340), eu=o + 350, iu=o + 360, sl=o + 370, su=o + 380)
+        bat = type(bat)(**{**bat.__dict__, "temperature": o + 390})
+        ev = fakes.ev(12, ts=ts, power=o + 410, current=three(o + 420), voltage=three(o + 430))
+        ev = type(ev)(**{**ev.__dict__, "active_power_per_phase": three(o + 440), "reactive_power": o + 450,
+                         "reactive_power_per_phase": three(o + 460), "frequency": o + 470})
+        return {2: meter, 8: inv, 9: bat, 12: ev}
+
+    def expected(msg, metric):
+        n = metric.name
+        if n.endswith(("_PHASE_1", "_PHASE_2", "_PHASE_3")):
+            idx = int(n[-1]) - 1
+            base = n[: -len("_PHASE_1")].lower()
+            return getattr(msg, base + "_per_phase")[idx]
+        field = {
+            "ACTIVE_POWER": "active_power", "REACTIVE_POWER": "reactive_power", "FREQUENCY": "frequency", "SOC": "soc",
+            "SOC_LOWER_BOUND": "soc_lower_bound", "SOC_UPPER_BOUND": "soc_upper_bound", "CAPACITY": "capacity", "TEMPERATURE": "temperature",
+            "POWER_INCLUSION_LOWER_BOUND": "power_inclusion_lower_bound", "POWER_EXCLUSION_LOWER_BOUND": "power_exclusion_lower_bound",
+            "POWER_EXCLUSION_UPPER_BOUND": "power_exclusion_upper_bound", "POWER_INCLUSION_UPPER_BOUND": "power_inclusion_upper_bound",
+            "ACTIVE_POWER_INCLUSION_LOWER_BOUND": "active_power_inclusion_lower_bound",
+            "ACTIVE_POWER_EXCLUSION_LOWER_BOUND": "active_power_exclusion_lower_bound",
+            "ACTIVE_POWER_EXCLUSION_UPPER_BOUND": "active_power_exclusion_upper_bound",
+            "ACTIVE_POWER_INCLUSION_UPPER_BOUND": "active_power_inclusion_upper_bound",
+        }[n]
+        return getattr(msg, field)
+
+    tables = {2: src._MeterDataMethods, 8: src._InverterDataMethods, 9: src._BatteryDataMethods, 12: src._EVChargerDataMethods}
+    viol = []
+    n_streams = 0
+    with virtual_loop() as loop, fakes.fake_microgrid(COMPONENTS, CONNECTIONS) as cm:
+        api = cm.api_client
+        reg = ChannelRegistry(name="verif")
+        reqch = Broadcast(name="requests")
+        actor = DataSourcingActor(reqch.new_receiver(), reg)
+        actor.start()
+        loop.settle()
+        rs = reqch.new_sender()
+        streams = []
+        for cid, table in tables.items():
+            for metric in table:
+                r = ComponentMetricRequest("ns", cid, metric, None)
+                rx = reg.get_or_create(Sample[Quantity], r.get_channel_name()).new_receiver(limit=10)
+                streams.append((cid, metric, rx))
+                loop.create_task(rs.send(r))
+                loop.settle()
+        sent = {}
+        for k in (1, 2):
+            m = msgs(k)
+            for cid, msg in m.items():
+                api.push(msg)
+                sent[(cid, k)] = msg
+            loop.settle()
+        for cid, metric, rx in streams:
+            n_streams += 1
+            got = []
+            while len(rx):
+                s_ = rx.consume()
+                got.append((int((s_.timestamp - T).total_seconds()), None if s_.value is None else s_.value.base_value))
+            exp = [(k, expected(sent[(cid, k)], metric)) for k in (1, 2)]
+            if len(got) != 2 or any(g[0] != e[0] or g[1] is None or not math.isclose(g[1], e[1]) for g, e in zip(got, exp)):
+                viol.append(("sample_carries_metric_value_and_timestamp", {"component": cid, "metric": metric.name, "got": got, "expected": exp}))
+        loop.create_task(actor.stop())
+        loop.settle()
+    return viol, n_streams
+
+
 def _mkcase(plan):
     return lambda choices: {"plan": plan, "choices": list(choices)}
 
@@ -225,6 +315,16 @@ def run(tier: str, seed: int, workers: int):
         plans = [("meter", 2), ("meter-short", 2), ("two-components", 2), ("all-categories", 1), ("meter-long", 1)]
     determinism_selfcheck(make_scenario("meter-short"))
     acc = Acc()
+    from ..core import Violation
+
+    viol, n_streams = all_metrics_case()
+    acc.evaluations += 1
+    acc.traces += 1
+    acc.transitions += 2 * 4 + n_streams
+    acc.clauses["sample_carries_metric_value_and_timestamp"] += 2 * n_streams
+    acc.counters["metric_streams_checked"] = n_streams
+    for clause, detail in viol:
+        acc.violation(Violation(clause, {"plan": "all-metrics"}, detail))
     # the per-plan trees are large: explore each with the parallel explorer
     for plan, bound in plans:
         acc.merge(explore(make_scenario(plan), bound, _mkcase(plan), workers=workers))
@@ -233,7 +333,8 @@ def run(tier: str, seed: int, workers: int):
         "duplicate, an unknown component; two components; one component per category - and a number of data messages per component): "
         "every interleaving of requests and messages injected at quiescence, plus injection between two loop iterations and "
         "asyncio.wait done-set orders as deviations up to the bound; non-trivial = a message is delivered before the last request and "
-        "there are at least two streams",
+        "there are at least two streams; plus one run subscribing every metric the SDK supports for a meter, an inverter, a battery "
+        "and an EV charger, with messages whose fields all differ, each stream compared with the field named by the metric",
         "assumptions": [
             "a stream must carry a message when its (first) request was injected in an earlier quiescent phase than the message; must not "
             "carry it when the message came in an earlier phase than the request; either is accepted when both fall in the same phase",
@@ -246,4 +347,6 @@ def run(tier: str, seed: int, workers: int):
 
 
 def replay(case: dict):
+    if case["plan"] == "all-metrics":
+        return all_metrics_case()[0]
     return replay_choices(make_scenario(case["plan"]), case["choices"], case.get("labels")).violations
